@@ -45,6 +45,9 @@ FIELD_TYPES = {
     ('pjrpc.server.specs.openrpc:OpenRPC', '_schema_extractor'): '=UserSchemaExtractor',
     ('pjrpc.server.specs.openapi:OpenAPI', '_error_http_status_map'): '=dict',
     ('pjrpc.server.dispatcher:Method', 'method'): '=UserMethod',
+    ('pjrpc.client.client:BaseBatch', '_client'): 'pjrpc.client.client:BaseAbstractClient',
+    ('pjrpc.client.client:BaseBatch', '_requests'): '=pjrpc.common.v20:BatchRequest',
+    ('pjrpc.client.client:BaseBatch', '_id_gen'): '=UserIdIter',
     ('pjrpc.client.integrations.pytest:PjRpcMocker', '_matches'): 'ddict[ddict[list[=pjrpc.client.integrations.pytest:Match]]]',
     ('pjrpc.client.integrations.pytest:PjRpcMocker', '_calls'): 'ddict[dict[=UserMock]]',
     ('pjrpc.client.integrations.pytest:PjRpcMocker', '_mocker'): '=UserMockModule',
